@@ -95,6 +95,10 @@ type fnInfo struct {
 	joins   map[*ssa.BasicBlock][]*ssa.Phi // tracked phis per block
 	live    map[*ssa.Phi]map[*ssa.BasicBlock]bool
 	ctxJoin map[*ssa.BasicBlock]bool // blocks whose entering edge is recorded (tracked joins)
+	// retested: values that decide more than one branch (`if rc == nil && never`
+	// ... `if rc == nil`): the outcome of one test is remembered along the path
+	// while another test of the same value is still reachable.
+	retested map[ssa.Value]map[*ssa.BasicBlock]bool
 }
 
 var (
@@ -324,6 +328,51 @@ func buildInfo(fn *ssa.Function) *fnInfo {
 	for b := range fi.joins {
 		sort.Slice(fi.joins[b], func(i, j int) bool { return fi.joins[b][i].Pos() < fi.joins[b][j].Pos() })
 	}
+	// values tested by two or more branches
+	tests := map[ssa.Value][]*ssa.BasicBlock{}
+	for _, b := range fn.Blocks {
+		if len(b.Instrs) == 0 {
+			continue
+		}
+		if ifi, ok := b.Instrs[len(b.Instrs)-1].(*ssa.If); ok {
+			v, _ := condAtoms(ifi.Cond)
+			if _, isConst := v.(*ssa.Const); !isConst {
+				tests[v] = append(tests[v], b)
+			}
+		}
+	}
+	fi.retested = map[ssa.Value]map[*ssa.BasicBlock]bool{}
+	for v, bs := range tests {
+		if len(bs) < 2 {
+			continue
+		}
+		lv := map[*ssa.BasicBlock]bool{}
+		var q []*ssa.BasicBlock
+		for _, ub := range bs {
+			if !lv[ub] {
+				lv[ub] = true
+				q = append(q, ub)
+			}
+		}
+		var def *ssa.BasicBlock
+		if in, ok := v.(ssa.Instruction); ok {
+			def = in.Block()
+		}
+		for len(q) > 0 {
+			x := q[0]
+			q = q[1:]
+			if x == def {
+				continue
+			}
+			for _, pr := range x.Preds {
+				if !lv[pr] {
+					lv[pr] = true
+					q = append(q, pr)
+				}
+			}
+		}
+		fi.retested[v] = lv
+	}
 	return fi
 }
 
@@ -430,17 +479,25 @@ type penv struct {
 	leaf   map[*ssa.Phi]ssa.Value
 	at     map[*ssa.Phi]*ssa.BasicBlock
 	atEdge map[*ssa.Phi]int
+	val    map[ssa.Value]absval // outcomes of earlier tests of re-tested values
 }
 
 func newEnv() *penv {
-	return &penv{phi: map[*ssa.Phi]absval{}, pred: map[*ssa.BasicBlock]int{}, leaf: map[*ssa.Phi]ssa.Value{}, at: map[*ssa.Phi]*ssa.BasicBlock{}, atEdge: map[*ssa.Phi]int{}}
+	return &penv{phi: map[*ssa.Phi]absval{}, pred: map[*ssa.BasicBlock]int{}, leaf: map[*ssa.Phi]ssa.Value{}, at: map[*ssa.Phi]*ssa.BasicBlock{}, atEdge: map[*ssa.Phi]int{}, val: map[ssa.Value]absval{}}
 }
 
 func (e *penv) key() string {
-	if e == nil || (len(e.phi) == 0 && len(e.pred) == 0 && len(e.leaf) == 0) {
+	if e == nil || (len(e.phi) == 0 && len(e.pred) == 0 && len(e.leaf) == 0 && len(e.val) == 0) {
 		return ""
 	}
 	var parts []string
+	for v, a := range e.val {
+		bi := -1
+		if in, ok := v.(ssa.Instruction); ok && in.Block() != nil {
+			bi = in.Block().Index
+		}
+		parts = append(parts, "v"+strconv.Itoa(bi)+"."+v.Name()+"="+strconv.Itoa(int(a)))
+	}
 	for p, l := range e.leaf {
 		parts = append(parts, "l"+strconv.Itoa(p.Block().Index)+"."+p.Name()+"="+l.Name()+"@"+strconv.Itoa(e.at[p].Index)+"."+strconv.Itoa(e.atEdge[p]))
 	}
@@ -460,6 +517,11 @@ func (fi *fnInfo) abs(v ssa.Value, env *penv, at *ssa.BasicBlock, edge int, dept
 		return unk
 	}
 	v = unwrap(v)
+	if env != nil {
+		if a, ok := env.val[v]; ok {
+			return a
+		}
+	}
 	switch x := v.(type) {
 	case *ssa.Const:
 		return constAbs(x)
@@ -474,6 +536,12 @@ func (fi *fnInfo) abs(v ssa.Value, env *penv, at *ssa.BasicBlock, edge int, dept
 	case *ssa.Call:
 		if neverNil[CalleeName(x)] {
 			return nonzero
+		}
+		// fmt.Sprintf with literal text in its format never yields ""
+		if CalleeName(x) == "fmt.Sprintf" && len(x.Call.Args) > 0 {
+			if f, ok := ConstString(x.Call.Args[0]); ok && hasLiteralText(f) {
+				return nonzero
+			}
 		}
 		if k, ok := purePred(x); ok {
 			for _, f := range fi.pfacts[k] {
@@ -531,6 +599,24 @@ func (fi *fnInfo) abs(v ssa.Value, env *penv, at *ssa.BasicBlock, edge int, dept
 		return val
 	}
 	return unk
+}
+
+// hasLiteralText: the format contains a character outside of %-verbs.
+func hasLiteralText(f string) bool {
+	for i := 0; i < len(f); i++ {
+		if f[i] != '%' {
+			return true
+		}
+		// skip the verb (flags, width, precision, verb letter); "%%" is literal text
+		i++
+		if i < len(f) && f[i] == '%' {
+			return true
+		}
+		for i < len(f) && strings.ContainsRune("+-# 0123456789.[]*", rune(f[i])) {
+			i++
+		}
+	}
+	return false
 }
 
 // edgeFact is what taking out-edge idx of b establishes: (value, abstract value).
@@ -600,6 +686,19 @@ func (fi *fnInfo) enter(b *ssa.BasicBlock, i int, env *penv) *penv {
 			if jb != s && fi.joinLive(jb, s) {
 				ne.pred[jb] = j
 			}
+		}
+		for v, a := range env.val {
+			if in, ok := v.(ssa.Instruction); ok && in.Block() == s {
+				continue // redefined
+			}
+			if fi.retested[v][s] {
+				ne.val[v] = a
+			}
+		}
+	}
+	if ev, val := fi.edgeFact(b, i); ev != nil && val != unk && fi.retested[ev][s] {
+		if in, ok := ev.(ssa.Instruction); !ok || in.Block() != s {
+			ne.val[ev] = val
 		}
 	}
 	if ps := fi.joins[s]; len(ps) > 0 && cnt == 1 {
